@@ -2,6 +2,7 @@
 //@source name=fd kind=file path=read-fonts/src/font_data.rs
 //@source name=raw kind=file path=font-types/src/raw.rs
 //@source name=tr kind=file path=read-fonts/src/table_ref.rs
+//@source name=arr kind=file path=read-fonts/src/array.rs
 // C01: the byte-access primitives every parsed table goes through - FontData::{len, is_empty, split_off, take_up_to,
 // read_at, read_be_at, check_in_bounds, read_array, cursor, as_bytes, new} and Cursor::{advance, advance_by, read, read_be,
 // read_array, position, remaining_bytes, remaining, is_empty, finish} - on the real text, for buffers of EVERY length and
@@ -17,6 +18,9 @@
 use vstd::prelude::*;
 verus! {
 
+pub assume_specification<T, E, U, F: FnOnce(T) -> Result<U, E>>[Result::<T, E>::and_then](o: Result<T, E>, f: F) -> (r: Result<U, E>)
+    requires o is Ok ==> f.requires((o->Ok_0,))
+    ensures o is Err ==> r is Err && r->Err_0 == o->Err_0, o is Ok ==> f.ensures((o->Ok_0,), r);
 pub assume_specification<Idx: Clone>[<core::ops::Range<Idx> as Clone>::clone](r: &core::ops::Range<Idx>) -> (o: core::ops::Range<Idx>)
     ensures vstd::pervasive::cloned(r.start, o.start), vstd::pervasive::cloned(r.end, o.end);
 
@@ -228,6 +232,78 @@ impl<'a> Cursor<'a> {
 //@spec
         ensures r.is_ok() == (self.pos <= self.data.bytes@.len()),
             r.is_ok() ==> r->Ok_0.data == self.data && r->Ok_0.shape == shape
+//@end
+}
+
+// ---- array.rs: ComputedArray / VarLenArray (item readers are abstract trait methods: no panic is their own obligation)
+pub trait ReadArgs { type Args; }
+pub trait ComputeSize: ReadArgs {
+    fn compute_size(args: &Self::Args) -> Result<usize, ReadError>;
+}
+pub trait FontReadWithArgs<'a>: Sized + ReadArgs {
+    fn read_with_args(data: FontData<'a>, args: &Self::Args) -> Result<Self, ReadError>;
+}
+pub trait FontRead<'a>: Sized {
+    fn read(data: FontData<'a>) -> Result<Self, ReadError>;
+}
+pub trait VarSize {
+    fn read_len_at(data: FontData, pos: usize) -> Option<usize>;
+}
+
+//@require source=arr seq="pub struct ComputedArray<'a, T: ReadArgs> { item_len: usize, len: usize, data: FontData<'a>, args: T::Args, }"
+pub struct ComputedArray<'a, T: ReadArgs> {
+    item_len: usize,
+    len: usize,
+    data: FontData<'a>,
+    args: T::Args,
+}
+
+impl<'a, T: ComputeSize> ComputedArray<'a, T> {
+//@extract source=arr container="impl<'a, T: ComputeSize> ComputedArray<'a, T>" fn=new ret=r
+//@spec
+        ensures r.is_ok() ==> r->Ok_0.data == data && r->Ok_0.len * r->Ok_0.item_len <= data.bytes@.len()
+            && (r->Ok_0.item_len == 0 ==> r->Ok_0.len == 0) && (r->Ok_0.item_len > 0 ==> r->Ok_0.len == (data.bytes@.len() as int) / (r->Ok_0.item_len as int))
+//@at after "let len = data.len().checked_div(item_len).unwrap_or(0);"
+        proof {
+            if item_len > 0 {
+                let n = data.bytes@.len() as int; let d = item_len as int;
+                assert((n / d) * d <= n) by(nonlinear_arith) requires d > 0, n >= 0;
+            }
+        }
+//@end
+
+//@extract source=arr container="impl<'a, T: ComputeSize> ComputedArray<'a, T>" fn=len ret=r
+//@spec
+        ensures r == self.len
+//@end
+
+//@extract source=arr container="impl<'a, T: ComputeSize> ComputedArray<'a, T>" fn=is_empty ret=r
+//@spec
+        ensures r == (self.len == 0)
+//@end
+}
+
+impl<'a, T> ComputedArray<'a, T>
+where
+    T: FontReadWithArgs<'a>,
+    T::Args: Copy + 'static,
+{
+//@extract source=arr container="impl<'a, T> ComputedArray<'a, T>" fn=get ret=r
+//@spec
+        ensures idx * self.item_len > self.data.bytes@.len() ==> r.is_err()
+//@end
+}
+
+//@require source=arr seq="pub struct VarLenArray<'a, T> { data: FontData<'a>, phantom: std::marker::PhantomData<*const T>, }"
+pub struct VarLenArray<'a, T> {
+    data: FontData<'a>,
+    phantom: std::marker::PhantomData<*const T>,
+}
+
+impl<'a, T: FontRead<'a> + VarSize> VarLenArray<'a, T> {
+//@extract source=arr container="impl<'a, T: FontRead<'a> + VarSize> VarLenArray<'a, T>" fn=get ret=r
+//@spec
+        // total (no overflow: the running position is advanced with checked_add) and terminating for every index
 //@end
 }
 
